@@ -55,6 +55,8 @@ def cases(tier, seed):
         # dependency order (g, _period): the period is NOT the leading axis of the transition array
         out.append({"id": f"L2-gp-seed{sd}-T3-n5-v2", "labels": 2, "sim_seed": sd, "T": 3, "n": 5, "nv": 2, "seed": seed, "dep_order": "gp"})
         out.append({"id": f"L2-gp-seed{sd}-T4-n2-v1", "labels": 2, "sim_seed": sd, "T": 4, "n": 2, "nv": 1, "seed": seed, "dep_order": "gp"})
+        # THREE dependencies with unequal sizes (_period: T, g: 5, d: 2); the rows do not depend on d
+        out.append({"id": f"L2-pgd-seed{sd}-T3-n5-v1", "labels": 2, "sim_seed": sd, "T": 3, "n": 5, "nv": 1, "seed": seed, "dep_order": "pgd"})
     return out
 
 
@@ -63,7 +65,7 @@ def cost(case):
 
 
 def build(T, n, nv, labels, dep_order="pg"):
-    deps = "_period, g" if dep_order == "pg" else "g, _period"
+    deps = {"pg": "_period, g", "gp": "g, _period", "pgd": "_period, g, d"}[dep_order]
     return _build(T, n, nv, labels, deps)
 
 
@@ -114,7 +116,11 @@ class Oracle:
             arr = np.full((self.T, self.ng, self.labels), 1.0 / self.labels)
             for i in range(self.n):
                 arr[:, self.g_of_agent[i], :] = rows[v][:, i, :]
-            p["shocks"][v] = jnp.asarray(arr if self.dep_order == "pg" else np.transpose(arr, (1, 0, 2)))
+            if self.dep_order == "gp":
+                arr = np.transpose(arr, (1, 0, 2))
+            elif self.dep_order == "pgd":
+                arr = np.repeat(arr[:, :, None, :], 2, axis=2)  # same row for both values of the choice d
+            p["shocks"][v] = jnp.asarray(arr)
         return p
 
     def draw(self, rows, seed=None, return_frame=False):
